@@ -128,4 +128,26 @@ func init() {
 		NotDecided: "losslessness and injectivity of the escaping functions over all byte strings (Escape/Unescape are loops over runtime bytes; no structural rule establishes that they are inverse); LLVM's own reading of the tokens.",
 		Rules:      []RuleUse{{Rule: "ENC-NUM"}, {Rule: "ENC-STR"}, {Rule: "ENC-TEXT"}, {Rule: "ENC-PAIR"}, {Rule: "ENC-RAW"}},
 	})
+	addProperty(&Property{
+		ID:         "C09",
+		Title:      "Integer literals keep their exact value through print and parse",
+		Decided:    "ONLY reader/writer table agreement and totality: every spelling class the integer printer can emit (true/false, u0x + base-16 digits, decimal) is accepted by the reader under the same literal and base (LIT-INT-TAB); no value switch of the integer printer has a panicking default over runtime data (VSW); the parser reaches the reader only through the integer-literal token text (ENC-TEXT).",
+		NotDecided: "value preservation for any width or value: the entropy heuristic that chooses hexadecimal, two's-complement decoding of s0x by type width, and big-integer formatting are runtime computations that no structural rule bounds. The behavioural core of the property is NOT decided.",
+		Rules:      []RuleUse{{Rule: "LIT-INT-TAB"}, {Rule: "VSW"}},
+	})
+	addProperty(&Property{
+		ID:         "C10",
+		Title:      "Floating-point literals keep their exact bit pattern",
+		Decided:    "ONLY reader/writer table agreement: per kind, hex prefix letter and mewmew/float codec are the same in printer and reader, the printer's kind switch covers all declared kinds, and the kinds that can fall through to a decimal spelling are exactly those the reader's decimal branch handles (LIT-FP-TAB); kind switches with panicking defaults are total or exempt with the LLVM rule that makes the missing kinds unreachable (VSW).",
+		NotDecided: "any bit pattern: exactness tests, rounding precisions, NaN payloads, signed zeros and subnormals are numerical questions outside this technique. The behavioural core of the property is NOT decided.",
+		Rules:      []RuleUse{{Rule: "LIT-FP-TAB"}, {Rule: "VSW"}},
+	})
+	addProperty(&Property{
+		ID:         "C02",
+		Title:      "Printed output is a fixpoint of parse and print",
+		Decided:    "only conditions necessary for idempotence itself (dropping a field is idempotent, so coverage rules are deliberately not attached): output cannot depend on map iteration order (DET-1); every keyword, literal spelling class and identifier spelling the printer can choose is read back into the same class/value table entry (ENUM-TAB, ENUM-LEX, LIT-INT-TAB, LIT-FP-TAB, ENC-NUM, ENC-PAIR, MD-KEY); the numbering the printer emits is the numbering the parser assigns on re-read (NUM-SHAPE, NUM-PREFIX, NUM-AUTH); every emitted list is already in the order a re-parse would put it in (ORD-SORT).",
+		NotDecided: "byte equality of the two texts; structural identity of the two parsed modules; acceptance of the printed text by the generated LALR parser beyond keyword/terminal membership.",
+		Rules: []RuleUse{{Rule: "DET-1"}, {Rule: "ENUM-TAB"}, {Rule: "ENUM-LEX"}, {Rule: "LIT-INT-TAB"}, {Rule: "LIT-FP-TAB"}, {Rule: "ENC-NUM"}, {Rule: "ENC-PAIR"}, {Rule: "MD-KEY"},
+			{Rule: "NUM-SHAPE"}, {Rule: "NUM-PREFIX"}, {Rule: "NUM-AUTH"}, {Rule: "ORD-SORT"}},
+	})
 }
